@@ -333,8 +333,12 @@ class SInterp(object):
             self.block(st.body if self.truth(self.expr(st.test, env)) else st.orelse, env)
         elif isinstance(st, ast.For):
             broke = False
-            for x in self.iterate(self.expr(st.iter, env)):
+            it_v = self.expr(st.iter, env)
+            live = len(it_v) if isinstance(it_v, (dict, set)) else None
+            for x in self.iterate(it_v):
                 self.tick()
+                if live is not None and len(it_v) != live:
+                    raise Raised('RuntimeError')             # dictionary / set changed size during iteration
                 self.assign(st.target, x, env)
                 try:
                     self.block(st.body, env)
@@ -343,6 +347,8 @@ class SInterp(object):
                     break
                 except _Continue:
                     continue
+            if live is not None and not broke and len(it_v) != live:
+                raise Raised('RuntimeError')
             if not broke:
                 self.block(st.orelse, env)
         elif isinstance(st, ast.While):
